@@ -1,0 +1,73 @@
+// Copyright 2026 Dolthub, Inc.
+//
+// Licensed under the Apache License, Version 2.0 (the "License");
+// you may not use this file except in compliance with the License.
+// You may obtain a copy of the License at
+//
+//     http://www.apache.org/licenses/LICENSE-2.0
+//
+// Unless required by applicable law or agreed to in writing, software
+// distributed under the License is distributed on an "AS IS" BASIS,
+// WITHOUT WARRANTIES OR CONDITIONS OF ANY KIND, either express or implied.
+// See the License for the specific language governing permissions and
+// limitations under the License.
+
+//go:build verif
+
+package blobstore
+
+// Machine-checked contracts for /verif (comment-only; see /verif/DESIGN.md §2.2).
+
+//@ func NewBlobRange
+//@   property C42
+//@   nopanic
+//@   requires length >= 0
+//@   ensures  result.offset == offset && result.length == length
+
+//@ func (BlobRange).isAllRange
+//@   property C42
+//@   nopanic
+//@   ensures  result == (br.offset == 0 && br.length == 0)
+
+// positiveRange: the normalised range covers exactly [start, end) of the blob.
+//@ func (BlobRange).positiveRange
+//@   property C42
+//@   nopanic
+//@   requires 0 <= size && size <= 4611686018427387904
+//@   requires -size <= br.offset && br.offset <= size
+//@   requires 0 <= br.length && br.length <= 4611686018427387904
+//@   ensures  result.offset == verif_range_start(br, size)
+//@   ensures  result.offset + result.length == verif_range_end(br, size)
+//@   ensures  0 <= result.offset && 0 <= result.length && result.offset + result.length <= size
+
+// A ranged read of an in-memory blob slices exactly [start, end) (the slicing InMemoryBlobstore.Get performs).
+//@ lemma verif_lemma_inmem_range
+//@   property C42
+//@   requires len(val) <= 4611686018427387904
+//@   requires -int64(len(val)) <= br.offset && br.offset <= int64(len(val))
+//@   requires 0 <= br.length && br.length <= 4611686018427387904
+
+// the limiting reader of the local blobstore never hands out bytes beyond the range
+//@ extern (io.Reader).Read as verif_x_Reader_Read
+//@   ensures 0 <= n && n <= len(p)
+//@   modifies p[0:len(p)]
+
+//@ func (*localBlobRangeReadCloser).Read
+//@   property C42
+//@   nopanic
+//@   requires 0 <= lbrrc.pos && lbrrc.pos <= lbrrc.br.length && lbrrc.rc != nil
+//@   ensures  0 <= result0 && result0 <= len(p)
+//@   ensures  lbrrc.pos == old(lbrrc.pos) + int64(result0) && lbrrc.pos <= lbrrc.br.length
+//@   ensures  old(lbrrc.pos) == lbrrc.br.length ==> result0 == 0 && result1 == io.EOF
+//@   ensures  lbrrc.br.offset == old(lbrrc.br.offset) && lbrrc.br.length == old(lbrrc.br.length)
+
+// the limiting reader must be the only way to read the file: *os.File's ReadFrom/WriteTo must not be promoted
+//@ type_no_method localBlobRangeReadCloser WriteTo ReadFrom property C42
+
+// Concatenate (in-memory): when the batches are handed to the compose step every source has been put in a batch.
+//@ extern golang.org/x/sync/errgroup.WithContext as verif_x_errgroup_WithContext
+//@   modifies nothing
+//@   ensures g != nil
+//@ func (*InMemoryBlobstore).Concatenate
+//@   property C42
+//@   at call golang.org/x/sync/errgroup.WithContext: assert len(sources) == 0
